@@ -2,7 +2,7 @@
 the 6144-byte area, environmental keys of the listed lengths, guard-option subsets, positions, raw and XorEncoded."""
 import io, os, sys
 sys.path.insert(0, os.path.dirname(os.path.abspath(__file__)))
-from common import Component, emit, rng, TIER, ROOT
+from common import Component, emit, rng, TIER, ROOT, time_limit, CaseTimeout
 ns = {}
 exec(open(os.path.join(ROOT, "contracts", "spec", "gens.py")).read(), ns)
 from dissect.cobaltstrike.beacon import BeaconConfig
